@@ -1082,8 +1082,9 @@ class PSBT(EmbitBase):
             if inp.is_taproot:
                 # try to sign with individual private key (WIF)
                 # or with root without derivations
+                # (descriptor key is a wrapper - sign with the key it holds)
                 counter += self.sign_input_with_tapkey(
-                    root,
+                    root.key if hasattr(root, "origin") else root,
                     i,
                     inp,
                     sighash=inp_sighash,
